@@ -84,21 +84,43 @@ Fixpoint cut_ords (n : nat) (ord stride : N) : list N :=
   | S n' => if ord =? 0 then [] else ord :: cut_ords n' (ord - stride) stride
   end.
 
+(* latest_compaction_checkpoint_before_or_at_seq_v1 as repaired: the bounded backward scan (newest first) answers
+   only when it covered the whole checkpoint sidecar; otherwise Err, and every caller falls back to truth *)
+Definition ck_lookup (K : consts) (cks : list ck) (maxs : N) : option (option ck) :=
+  if nlen cks <=? k_ck_window K then Some (best_le (rev cks) maxs) else None.
+
+Definition mk_cut (ord s id : N) (b : option ck) : cutpt :=
+  let done := match b with Some c => ck_to c =? s | None => false end in
+  {| cp_ord := ord; cp_seq := s; cp_mid := id; cp_done := done; cp_ck := if done then option_map ck_id b else None |}.
+
 Definition cut_point_at (K : consts) (l : list ev) (ord : N) : list cutpt :=
   let ms := msgs l in
   if (ord =? 0) || (nlen ms <? ord) then []
   else match nth_error ms (N.to_nat (ord - 1)) with
        | None => []
        | Some (s, id) =>
-         let b := best_le (rev (lastn (k_ck_window K) (ckpts l))) s in
-         let done := match b with Some c => ck_to c =? s | None => false end in
-         [{| cp_ord := ord; cp_seq := s; cp_mid := id; cp_done := done;
-             cp_ck := if done then option_map ck_id b else None |}]
+         let b := match ck_lookup K (ckpts l) s with
+                  | Some b => b
+                  | None => best_le (ckpts l) s          (* replay + forward scan of all checkpoint frames *)
+                  end in
+         [mk_cut ord s id b]
        end.
 
 Definition cut_points (K : consts) (stride lim : N) (l : list ev) : list cutpt :=
   let latest := (nlen (msgs l) / stride) * stride in
   flat_map (cut_point_at K l) (cut_ords (N.to_nat (clamp (k_limit_lo K) (k_limit_hi K) lim)) latest stride).
+
+(* before the repair the scan result was used even when it had stopped at the event cap *)
+Definition cut_point_at_unfixed (K : consts) (l : list ev) (ord : N) : list cutpt :=
+  let ms := msgs l in
+  if (ord =? 0) || (nlen ms <? ord) then []
+  else match nth_error ms (N.to_nat (ord - 1)) with
+       | None => []
+       | Some (s, id) => [mk_cut ord s id (best_le (rev (lastn (k_ck_window K) (ckpts l))) s)]
+       end.
+Definition cut_points_unfixed (K : consts) (stride lim : N) (l : list ev) : list cutpt :=
+  let latest := (nlen (msgs l) / stride) * stride in
+  flat_map (cut_point_at_unfixed K l) (cut_ords (N.to_nat (clamp (k_limit_lo K) (k_limit_hi K) lim)) latest stride).
 
 (* the planner shared by auto / schedule: latest first, skip checkpointed, stop at max_new *)
 Definition to_plan (c : cutpt) : plan := {| pl_ord := cp_ord c; pl_seq := cp_seq c; pl_mid := cp_mid c |}.
@@ -207,9 +229,9 @@ Definition upper_bound (ms : list (N * N * (N * N))) (target : N) : nat :=
    replay snapshot `snap` only when the cache has nothing at or below to_seq - 1 *)
 Definition select_base (K : consts) (cur snap : list ev) (to_seq : N) : option ck * N :=
   if to_seq <=? 1 then (None, 0)
-  else match best_le (rev (lastn (k_ck_window K) (ckpts cur))) (to_seq - 1) with
-       | Some c => (Some c, ck_to c)
-       | None => best_lt_truth (ckpts snap) to_seq
+  else match ck_lookup K (ckpts cur) (to_seq - 1) with
+       | Some (Some c) => (Some c, ck_to c)
+       | _ => best_lt_truth (ckpts snap) to_seq
        end.
 
 (* one planned cut: Ok (state', created) or the error that fails the job (20 not found, 21 mismatch) *)
@@ -368,7 +390,10 @@ Definition status (K : consts) (ostride : option N) (s : st) : res status_resp :
   else
     let l := log s in
     Ok {| ss_stride := stride; ss_count := nlen (msgs l);
-          ss_latest := best_le (rev (lastn (k_ck_window K) (ckpts l))) U64MAX;
+          ss_latest := match ck_lookup K (ckpts l) U64MAX with
+                       | Some (Some c) => Some c
+                       | _ => fst (best_lt_truth (ckpts l) (U64MAX + 1))
+                       end;
           ss_next := option_map to_plan (find (fun c => negb (cp_done c)) (cut_points K stride (k_plan_limit K) l));
           ss_inflight := find_inflight K l;
           ss_decision := last_decided l; ss_outcome := last_job_ended l |}.
